@@ -66,7 +66,7 @@ PROPS["C08"]["level_text"] = (
     "ℚ) replacing every AddEdge of an arbitrary mixed history by AddPoint of the returned vertex changes no answer of any query; edge_polygon_is_point_polygon: "
     "AddPoint v₀; AddEdge*; Compute equals polygon over v₀ and the direct vertices, so polygon_eq, start_independent, reverse_traversal, cut_additive cover "
     "AddEdge-built polygons. (d) orientAcc_flip, areaReduceAcc_cases, areaReduceAcc_signed_flip, areaReduceAcc_unsigned_eq_signed, "
-    "areaReduceAcc_unsigned_complement(_held): on the two-word accumulator, flipping reverse negates both words exactly; inside (−A/2, A/2) the signed results are "
+    "areaReduceAcc_unsigned_complement(_held), accRemainder_eq: on the two-word accumulator, flipping reverse negates both words exactly; inside (−A/2, A/2) the signed results are "
     "exact negatives; unsigned = signed when non-negative; otherwise the unsigned result is the accumulator Add(−other, A0), whose held value is A0 − other up to the "
     "single rounding bounded by C16's accum_add_step. Planimeter: segments_sum / _pos / _length / _vertices_only (one result line per polygon with ≥ 1 vertex). "
     "Earlier theorems kept: transit_eq_floor, transit_winding, transitdirect_parity, areaReduce_range/_cong/_flip/_neg_area, testPoint_eq_add_compute, "
